@@ -190,6 +190,8 @@ pub struct H {
     /// mount ids and root inodes of everything the attacker mounted
     pub atk_mounts: Vec<u64>,
     pub atk_inodes: Vec<(u64, u64)>,
+    pub base_mounts: Vec<u64>,
+    pub ctor_failed: bool,
     pub dsts: Vec<(String, bool)>,
     pub recs: Vec<(usize, String)>,
     pub absolute: Vec<(usize, String, String)>,
@@ -197,34 +199,37 @@ pub struct H {
 
 impl H {
     pub fn new() -> H {
-        H { atk_mounts: Vec::new(), atk_inodes: Vec::new(), dsts: Vec::new(), recs: Vec::new(), absolute: Vec::new() }
+        H { atk_mounts: Vec::new(), atk_inodes: Vec::new(), base_mounts: mount_ids(), ctor_failed: false, dsts: Vec::new(), recs: Vec::new(), absolute: Vec::new() }
     }
     fn note_mounts(&mut self, muts: &[Mutation]) {
         for m in muts {
-            if let Mutation::MountOn { src, dst, nofollow } = m {
+            if let Mutation::MountOn { dst, nofollow, .. } = m {
                 self.dsts.push((dst.clone(), *nofollow));
-                let fl = libc::O_PATH | if *nofollow { libc::O_NOFOLLOW } else { 0 };
-                if let Ok(fd) = sys::open(dst.as_bytes(), fl, 0) {
-                    // did the mount take effect? then this is the mounted root
-                    if let (Ok(id), Ok(st)) = (sys::mnt_id(fd), sys::fstat(fd)) {
-                        let is_new = if src.is_empty() {
-                            sys::fs_type(fd) == Ok(sys::TMPFS_MAGIC)
-                        } else {
-                            sys::lstat(src.as_bytes()).map(|s| s.st_ino == st.st_ino && s.st_dev == st.st_dev).unwrap_or(false)
-                                || sys::fstatat(libc::AT_FDCWD, src.as_bytes(), 0).map(|s| s.st_ino == st.st_ino && s.st_dev == st.st_dev).unwrap_or(false)
-                        };
-                        if is_new {
-                            self.atk_mounts.push(id);
-                            if sys::fs_type(fd) != Ok(sys::PROC_SUPER_MAGIC) {
-                                self.atk_inodes.push((st.st_dev, st.st_ino));
-                            }
-                        }
-                    }
-                    sys::close(fd);
-                }
+            }
+        }
+        // every mount id that did not exist when the run started was placed by the attacker
+        for id in mount_ids() {
+            if !self.base_mounts.contains(&id) && !self.atk_mounts.contains(&id) {
+                self.atk_mounts.push(id);
             }
         }
     }
+}
+
+/// mount ids of the universe's mount namespace, read through the pristine procfs
+pub fn mount_ids() -> Vec<u64> {
+    let pp = sys::PRISTINE_PROC.load(std::sync::atomic::Ordering::Relaxed);
+    let mut v = Vec::new();
+    if let Ok(fd) = sys::openat(pp, b"self/mountinfo", libc::O_RDONLY, 0) {
+        let txt = sys::read_fd_all(fd, 1 << 20);
+        sys::close(fd);
+        for l in String::from_utf8_lossy(&txt).lines() {
+            if let Some(id) = l.split(' ').next().and_then(|x| x.parse::<u64>().ok()) {
+                v.push(id);
+            }
+        }
+    }
+    v
 }
 
 impl Hooks for H {
@@ -234,6 +239,18 @@ impl Hooks for H {
         }
     }
     fn end_op(&mut self, _ctx: &mut RunCtx, rec: &mut OpRecord) {
+        if let Op::ProcNew { .. } = &rec.spec.op {
+            if !rec.outcome.is_ok() {
+                self.ctor_failed = true;
+                if let Outcome::Panic(m) = &rec.outcome {
+                    self.absolute.push((rec.idx, "panic".into(), m.clone()));
+                }
+            }
+            return;
+        }
+        if self.ctor_failed {
+            return; // no handle: a failing constructor is an acceptable error
+        }
         let (kind, path) = match &rec.spec.op {
             Op::ProcOpen { follow, path, .. } => (if *follow { "follow" } else { "open" }, path.clone()),
             Op::ProcReadlink { path, .. } => ("readlink", path.clone()),
@@ -324,6 +341,12 @@ fn run_pair(u: &mut Universe, case: &Case, st: &mut Stats, sample: bool) -> bool
         }
     }
     cleanup(&h.dsts);
+    // mounts on symlink / magic-link dentries cannot always be removed by
+    // path: a universe that has seen mounts is never reused (its private
+    // mount namespace disappears with it)
+    if !h.dsts.is_empty() {
+        u.poisoned = true;
+    }
     if let Some(e) = &out.harness_error {
         st.harness_errors.push(format!("mounted: {e}"));
         return false;
@@ -333,6 +356,9 @@ fn run_pair(u: &mut Universe, case: &Case, st: &mut Stats, sample: bool) -> bool
     let sup_at = case.jobs[0].iter().position(|o| matches!(o.op, Op::Sup { .. }));
     let base_shifted: Vec<(usize, String)> = hb.recs.iter().map(|(i, r)| (*i, r.clone())).collect();
     let mut problems = Vec::new();
+    if hb.ctor_failed {
+        return true;
+    }
     match sup_at {
         Some(s) => {
             let (lo, hi): (Vec<_>, Vec<_>) = base_shifted.into_iter().partition(|(i, _)| *i < s);
